@@ -20,6 +20,7 @@ import (
 	"github.com/sdcio/data-server/pkg/cache"
 	"github.com/sdcio/data-server/pkg/config"
 	"github.com/sdcio/data-server/pkg/datastore"
+	schemaClient "github.com/sdcio/data-server/pkg/datastore/clients/schema"
 	"github.com/sdcio/data-server/pkg/datastore/target"
 	dschema "github.com/sdcio/data-server/pkg/schema"
 	"github.com/sdcio/data-server/pkg/server"
@@ -138,6 +139,21 @@ func (w *World) boot() error {
 			w.Shadow = NewDevice(w.SI, func(string, ...any) {})
 			w.Shadow.State = w.Dev.State.Clone()
 		}
+		tgt = &teeTarget{real: real, shadow: w.Shadow, dev: w.Dev}
+	}
+	if strings.HasPrefix(w.Opts.DevKind, "netconf") {
+		commitDS, ns, opns, rem := "candidate", true, true, false
+		if w.Opts.DevKind == "netconf-running" {
+			commitDS, ns, opns, rem = "running", false, false, true
+		}
+		w.Cfg.SBI = &config.SBI{Type: "netconf", NetconfOptions: &config.SBINetconfOptions{CommitDatastore: commitDS, IncludeNS: ns, OperationWithNamespace: opns, UseOperationRemove: rem}}
+		if w.Shadow == nil {
+			w.Shadow = NewDevice(w.SI, func(string, ...any) {})
+			w.Shadow.State = w.Dev.State.Clone()
+		}
+		front := NewNCFront(w.Dev, w.Shadow, ns, opns, rem)
+		scb := schemaClient.NewSchemaClientBound(w.Cfg.Schema.GetSchema(), w.SchemaC)
+		real := target.VerifNewNCTarget(DSName, w.Cfg.SBI, scb, front.Drv)
 		tgt = &teeTarget{real: real, shadow: w.Shadow, dev: w.Dev}
 	}
 	w.DS = datastore.VerifNew(w.Ctx, w.Cfg, w.SchemaC, w.Cache, tgt)
